@@ -30,6 +30,8 @@ var concTemplates = map[string]string{
 	"h.html": `{{ x matches pat }}{{ y matches '^' ~ n }}{{ n in [1, 2, n] }}{{ n not in 1..3 }}{{ x starts with '<' }}{{ x ends with '>' }}` +
 		`{{ n + 1 - 2 * 3 / 4 // 5 % 6 ** 2 }}{{ n b-and 3 b-or 4 b-xor 1 }}{{ n == 1 or n != 2 and not (n < 3) }}{{ n >= 1 ? "a#{n}b" : {k: n}.k }}` +
 		`{{ [n, x][0] }}{{ x ~ y|raw }}{% set z = n %}{% do z %}{{ n is defined }}`,
+	// every escaper, explicitly
+	"u.html": `{{ x|escape('url') }}|{{ y|escape('css') }}|{{ x|escape('html_attr') }}|{{ x|escape('js') }}|{{ y|escape('url') }}|{{ x|escape }}`,
 	// three levels of include; the innermost waits at the barrier (scheduler gate) until every caller of the round is inside
 	"j.html": `J{% include 'k.html' %}{{ x }}`,
 	"k.html": `K[{{ x }}]{% include 'l.html' %}`,
@@ -37,7 +39,7 @@ var concTemplates = map[string]string{
 	"i.html": `{% use 'a.html' %}{% import 'f' as lib %}{{ lib.m(n) }}{{ block('b') }}{% filter upper %}{{ n }}{% endfilter %}{% verbatim %}{{ v }}{% endverbatim %}`,
 }
 
-var concNames = []string{"a.html", "b.js", "c.css", "d.txt", "e.html", "f", "bad.html", "g.js.twig", "h.html", "i.html"}
+var concNames = []string{"a.html", "b.js", "c.css", "d.txt", "e.html", "f", "bad.html", "g.js.twig", "h.html", "i.html", "u.html"}
 
 // barrier: a blocking user function used as a scheduler gate - gate(r) returns when all n callers of round r have
 // arrived (or after a time-out, so that a caller that failed early cannot block the others for ever).
